@@ -114,7 +114,8 @@ def facts(repo, cfg):
     okp = bool(re.search(r"errno=0;(\w+)=strtoll\((\w+),&(\w+),10\);if\(\3!=\2\)\*retval=\1;" + fail, p64))
     out.append(lit("numParseInt64Shape", "Bool", b(okp) if p64 else None,
                    "json_parse_int64: errno = 0; strtoll base 10; *retval written iff end != buf; (val == 0 && errno) || end == buf -> EINVAL, 1"))
-    oku = bool(re.search(r"errno=0;while\(\*(\w+)==''\)\1\+\+;if\(\*\1=='-'\)return1;(\w+)=strtoull\(\1,&(\w+),10\);if\(\3!=\1\)\*retval=\2;" + fail, pu))
+    oku = bool(re.search(r"errno=0;while\(isspace\(\(unsignedchar\)\*(\w+)\)\)\1\+\+;if\(\*\1=='-'\)\{errno=EINVAL;return1;\}"
+                         r"(\w+)=strtoull\(\1,&(\w+),10\);if\(\3!=\1\)\*retval=\2;" + fail, pu))
     out.append(lit("numParseUint64Shape", "Bool", b(oku) if pu else None,
-                   "json_parse_uint64: errno = 0; skip ' '; '-' -> 1; strtoull base 10; *retval written iff end != buf; failure test as above"))
+                   "json_parse_uint64: errno = 0; skip isspace; '-' -> EINVAL, 1; strtoull base 10; *retval written iff end != buf; failure test as above"))
     return "".join(out)
